@@ -60,7 +60,7 @@ theorem callH_step (st : St) (g h : HId) : CacheStep h st (callH st g).1 := by
   · simp [hc, CacheStep.refl]
   · by_cases hf : st.failing g ((st.h g).tries + 1) = true
     · -- the loader raised: only the invocation counter moved
-      simp only [hc, hf, if_true]
+      rw [if_neg hc, if_pos hf]
       left
       by_cases e : g = h
       · subst e; simp [cell]
@@ -78,10 +78,10 @@ theorem callH_inv (st : St) (g : HId) (hi : HInv st) : HInv (callH st g).1 := by
   by_cases hc : (st.h g).cached = true
   · simpa [hc] using hi
   · by_cases hf : st.failing g ((st.h g).tries + 1) = true
-    · simp only [hc, hf, if_true]
+    · rw [if_neg hc, if_pos hf]
       intro h
       by_cases e : g = h
-      · subst e; simp only [h_setH, if_true]; intro hx; exact absurd hx hc
+      · subst e; intro hx; simp at hx; exact absurd hx hc
       · simpa [e] using hi h
     · simp only [hc, hf]
       intro h
@@ -378,6 +378,7 @@ theorem step_props (st : St) (op : Op) (hi : HInv st) :
   | set m key v =>
     exact ⟨fun h _ => CacheStep.of_same (setItem_same st m key v),
       HInv.of_same (setItem_same st m key v) hi, fun v hv => by simp [step, valOf] at hv⟩
+  | reject m => exact ⟨fun h _ => CacheStep.refl h st, hi, fun v hv => by simp [step, valOf] at hv⟩
   | layer m =>
     exact ⟨fun h _ => CacheStep.of_same (addLayer_same st m),
       HInv.of_same (addLayer_same st m) hi, fun v hv => by simp [step, valOf] at hv⟩
@@ -414,9 +415,15 @@ theorem step_props (st : St) (op : Op) (hi : HInv st) :
     | stuck => rw [ho] at hv; simp [valOf] at hv
   | call g =>
     refine ⟨fun h _ => callH_step st g h, callH_inv st g hi, fun v hv => ?_⟩
-    simp only [step, valOf, Option.some.injEq] at hv ⊢
-    subst hv
-    exact callH_val st g hi
+    simp only [step] at hv ⊢
+    cases hx : (callH st g).2 with
+    | exc a n => rw [hx] at hv; simp [valOf] at hv
+    | none =>
+      rw [hx] at hv; simp only [valOf, Option.some.injEq] at hv; subst hv
+      rw [← hx]; exact callH_val st g hi (fun a n e => by rw [hx] at e; cases e)
+    | tok a n =>
+      rw [hx] at hv; simp only [valOf, Option.some.injEq] at hv; subst hv
+      rw [← hx]; exact callH_val st g hi (fun a n e => by rw [hx] at e; cases e)
   | hclear g =>
     refine ⟨fun h hne => ?_, clearH_inv st g hi, fun v hv => by simp [step, valOf] at hv⟩
     have : g ≠ h := fun e => hne (by rw [e])
@@ -462,6 +469,7 @@ theorem exec_inv (st : St) (ops : List Op) (hi : HInv st) : HInv (exec st ops) :
   | cons op ops ih => exact ih _ (step_props st op hi).2.1
 
 theorem HInv_init : HInv {} := by intro h hc; simp at hc
+theorem HInv_initF (F : HId → Nat → Bool) : HInv (init F) := by intro h hc; simp at hc
 
 theorem exec_step (st : St) (ops : List Op) (h : HId) (hi : HInv st) (hc : Op.hclear h ∉ ops) :
     CacheStep h st (exec st ops) := by
@@ -564,6 +572,7 @@ theorem step_loads_le (st : St) (op : Op) (h : HId) : (st.h h).loads ≤ ((step 
     omega
   cases op with
   | set m key v => exact same _ (setItem_same st m key v)
+  | reject m => exact Nat.le_refl _
   | layer m => exact same _ (addLayer_same st m)
   | clear m => exact same _ (clearMap_same st m)
   | snap m => exact same _ (snapshot_same (snapFuel st) st m)
